@@ -149,6 +149,10 @@ def check(ctx):
         ctx.check(good, "R15.4", "Sum/" + fn.id.split(" as ")[0].lstrip("<").replace("ec_core::test_results::", "") + "/" + fn.id.split("Sum<")[-1].split(">>")[0][:40],
                   desc, fn.at(), bad_detail="Sum impl is not Self(iter.sum()) / iter.map(|s| payload).sum(): " + desc)
 
+    for ty in ("Score", "Error"):
+        g = ctx.trait_fn("std::convert::From::from", "ec_core::test_results::%s<T>" % ty)
+        ps = return_paths(ctx.paths(g))
+        ctx.check(len(ps) == 1 and match(ps[0].ret, Agg("%s::%s" % (ty, ty), Param(1))) and not ps[0].calls(), "R15.4", "%s::from-wraps-the-value" % ty, short(ps[0].ret) if ps else "-", g.at())
     # ---- R15.5 EcIndividual -------------------------------------------------------
     for tr, m, callee in (("std::cmp::Ord", "cmp", "Ord::cmp"), ("std::cmp::PartialOrd", "partial_cmp", "PartialOrd::partial_cmp")):
         f = ctx.fn("<ec_core::individual::ec::EcIndividual<G, R> as %s>::%s" % (tr, m))
